@@ -253,7 +253,8 @@ impl Driver for C11 {
                 let k = rng.gen_range(1..4);
                 let items: Vec<&str> = (0..k).map(|_| pool[rng.gen_range(0..pool.len())]).collect();
                 let v = ["_a", "__k", "i", "_j2"][rng.gen_range(0..4)];
-                format!("max sum(n in vals) {{ n * x }} + sum({v} in 0..2) {{ y_{{{v}}} }}\ns.t.\n    x <= 1\n    y_{{{v}}} <= {v} + 1 for {v} in 0..2\nwhere\n    let vals = [{}]\ndefine\n    x as NonNegativeReal\n    y_{{{v}}} as NonNegativeReal for {v} in 0..2\n", items.join(", "))
+                let dec = ["1.5", "0.25", "2.0", "10.75"][rng.gen_range(0..4)];
+                format!("max sum(n in vals) {{ n * x }} + sum({v} in 0..2) {{ y_{{{v}}} }} + z_{{{dec}}}\ns.t.\n    x <= 1\n    z_{{{dec}}} <= 2\n    y_{{{v}}} <= {v} + 1 for {v} in 0..2\nwhere\n    let vals = [{}]\ndefine\n    x as NonNegativeReal\n    y_{{{v}}} as NonNegativeReal for {v} in 0..2\n    z_{{{dec}}} as NonNegativeReal\n", items.join(", "))
             } else if case == 58 {
                 // string literals with the escapes of the grammar, alone and in arrays
                 let pool = ["a\\nb", "q\\\"r", "t\\\\u", "\\u00e9x", "\u{e9}t\u{e9}", "tab\\t", "plain", "sl\\/ash", "e\u{301}", "two\n  lines", "end\n", "bs\\\\", "\\\\", "q\\\\\\\""];
